@@ -291,6 +291,47 @@ def _c12_one(sid, code, d1=None):
     return _c12_data(d1, can_encode=False)
 
 
+def _deep_immutable(x):
+    if isinstance(x, (list, dict, set, bytearray)):
+        return False
+    if isinstance(x, (tuple, frozenset)):
+        return all(_deep_immutable(e) for e in x)
+    if dataclasses.is_dataclass(x) and not isinstance(x, type):
+        return all(_deep_immutable(getattr(x, f.name)) for f in dataclasses.fields(x))
+    return True
+
+
+C12_DOCUMENTS = [
+    {"blocks": [[{"name": "NOP", "_line_offsets_override": [], "arg": {"name": "n"}}, {"name": "POP_TOP", "_line_offsets_override": [1, 2]}]], "filename": "f", "first_line_number": 1, "name": "n",
+     "stacksize": 1, "freevars": [], "_additional_args": [], "type": {"args": {"positional_only": [], "positional_or_keyword": ["a"], "keyword_only": []}},
+     "_additional_line": {"line": 3, "additional_offsets": [1, 2]}},
+    {"blocks": [[{"name": "LOAD_CONST", "arg": {"constant": [1, [2, [3]], {"frozenset": [4]}]}}], []], "filename": "f", "first_line_number": 1, "name": "n", "stacksize": 1,
+     "freevars": ["x"], "_additional_args": [{"name": "m", "_index_override": 0}], "_additional_line": {"line": None, "additional_offsets": []}},
+]
+
+
+def _c12_document(doc):
+    """from_json_data on a hand-written, schema-valid document: pure, repeatable, and the result aliases nothing of the document"""
+    msgs = []
+    snap = _json_snapshot(doc)
+    x = CodeData.from_json_data(doc)
+    if _json_snapshot(doc) != snap:
+        msgs.append("from_json_data modified the hand-written document")
+    if not _deep_immutable(x):
+        msgs.append("the loaded CodeData holds a mutable container (it may be the document's own list)")
+    try:
+        before = hash(x), repr(x)
+    except TypeError as e:
+        return msgs + ["loaded CodeData is not hashable: %s" % e]
+    _mutate_json(doc)
+    try:
+        if (hash(x), repr(x)) != before:
+            msgs.append("mutating the document afterwards changed the loaded CodeData (shared mutable state)")
+    except TypeError as e:
+        msgs.append("after mutating the document the loaded CodeData is not hashable: %s" % e)
+    return msgs
+
+
 def _c12_data(d1, can_encode):
     msgs = []
     keep = copy.deepcopy(d1)
@@ -369,6 +410,14 @@ def c12_purity(tier, seed):
                 from . import findings
                 fails.append(fail("api_calls_pure", "%s%s" % (sid, list(path)), msgs, {"source": src, "path": list(path)}, findings.input_tags(code)))
         samples.append(sid)
+    for k, doc in enumerate(C12_DOCUMENTS):
+        evals += 4
+        try:
+            msgs = _c12_document(copy.deepcopy(doc))
+        except Exception as e:
+            msgs = ["from_json_data on a hand-written document raised %s: %s" % (type(e).__name__, e)]
+        if msgs:
+            fails.append(fail("api_calls_pure", "document:%d" % k, msgs, {"document": k}))
     for sid, cd in _c12_handbuilt():
         evals += 12
         try:
@@ -382,6 +431,8 @@ def c12_purity(tier, seed):
 
 @replayer("C12", "purity_histories")
 def c12_replay(rec):
+    if "document" in rec["recipe"]:
+        return _c12_document(copy.deepcopy(C12_DOCUMENTS[rec["recipe"]["document"]]))
     if "handbuilt" in rec["recipe"]:
         return _c12_one("replay", None, _c12_handbuilt()[0][1])
     code = compile(rec["recipe"]["source"], "<c12>", "exec", dont_inherit=True)
